@@ -170,8 +170,9 @@ class Comparator:
                 # what is left after a near-total withdrawal is a difference of large numbers: replicas that agreed to 1e-6
                 # on the amount before (the drift band) may differ by percents on the remainder.  Drift is therefore measured
                 # against the largest amount the substance ever had in one vessel of the run, where that is known.
-                scale = max(abs(x), abs(y), getattr(self, 'peak', {}).get(n, F(0)))
-                if abs(x - y) <= 50 * ta + DRIFT * scale * (F(1) if scale == max(abs(x), abs(y)) else F(1, 1000)):
+                own = max(abs(x), abs(y))
+                peak = getattr(self, 'peak', {}).get(n, F(0))
+                if abs(x - y) <= 50 * ta + DRIFT * max(own, peak / 1000):
                     self.drifted = True
                     continue
                 return f"{where}: {n} = {float(x):.9g} vs {float(y):.9g} ({'mol' if not W.msubs[n].is_enzyme else 'U'})"
